@@ -117,6 +117,14 @@ def _boom_id(children):
     return None
 
 
+def call_result(node):
+    """What the caller of `node` gets back when the call returns normally."""
+    if node["fn"] == "ga":
+        # the family drives generator members with list(): the yielded values
+        return [node["u0"], node["rw"] if node["rw"] is not None else node["w0"]]
+    return node["ret"]
+
+
 def escaping(node):
     """The Boom id escaping from a call of `node`, or None if it returns."""
     for ch in node["pre"]:
